@@ -365,6 +365,7 @@ struct Run {
 
 	void run() {
 		ledger().reset();
+		trackObjectsForRaces();
 		// assign event ids to enqueue operations in program order
 		idsOfThread.assign(cfg.threads.size() + 1, std::vector<int>());
 		int id = 0;
@@ -483,6 +484,9 @@ static std::vector<Config> configsC11(int tier) {
 	std::vector<Prog> enq = {{O_ENQ}, {O_ENQ, O_ENQ}};
 	std::vector<Prog> worker = {{O_PROCESS}, {O_PROCESS_ONE}, {O_PROCESS_IF_ODD}, {O_PROCESS_UNTIL_EVEN}, {O_TAKE}, {O_CLEAR}, {O_PROCESS_ONE, O_PROCESS_ONE}, {O_PROCESS, O_PROCESS}};
 	addConfigs(v, {obs, enq, worker}, true);
+	// two consumers at once, no separate observer: the listeners themselves ask emptyQueue() while the other consumer's call
+	// starts or ends around them (the in-dispatch counter has to count calls, not remember a flag)
+	addConfigs(v, {{{O_ENQ, O_ENQ}}, {{O_PROCESS_ONE}}, {{O_PROCESS_ONE}, {O_PROCESS}}}, true);
 	// observer that also works; two workers
 	if(tier >= 1) {
 		std::vector<Prog> w1 = {{O_PROCESS}, {O_PROCESS_ONE}, {O_TAKE}, {O_CLEAR}};
